@@ -105,7 +105,7 @@ def rule_sb(ctx, rep):
         F = FL[fl]
         f = ctx.fn(F.lib, F.pfx + "_barrier")
         rep.touch(f)
-        dec = [e.inst for e in pat.accesses(f, "call_rcu_completion.futex", ("rmw",)) if e.rop == "dec"]
+        dec = [e.inst for e in pat.accesses(f, "call_rcu_completion.futex", ("rmw",)) if pat.is_decrement(f, e)]
         bl = pat.loads(f, "call_rcu_completion.barrier_count")
         waits = [i for i in f.all_insts() if mm.is_futex(i, mm.FUTEX_WAIT) and pat.last_field(i.d["aps"][1]) == "call_rcu_completion.futex"]
         if not (dec and bl and waits):
